@@ -17,6 +17,8 @@ pub enum Ty {
     Arr(Box<Ty>),
     /// Value whose type is only known at run time; used in type-agnostic positions only.
     Any,
+    /// process command builder (never run): a host value that lives behind a handle
+    Cmd,
 }
 
 impl Ty {
@@ -184,6 +186,7 @@ impl Gen<'_> {
             Ty::Null => "z",
             Ty::Arr(_) => "r",
             Ty::Any => "d",
+            Ty::Cmd => "c",
         };
         self.fresh_name(prefix)
     }
@@ -251,26 +254,28 @@ impl Gen<'_> {
 
     fn random_ty(&mut self, depth: usize) -> Ty {
         let w: [u32; 6] = match self.profile {
-            Profile::Array => [3, 3, 1, 0, 8, 0],
-            Profile::Mem => [2, 8, 1, 0, 3, 0],
+            Profile::Array => [3, 3, 1, 0, 8, 1],
+            Profile::Mem => [2, 8, 1, 0, 3, 3],
             Profile::Scope => [6, 5, 1, 0, 1, 0],
-            _ => [6, 5, 2, 1, 3, 0],
+            _ => [6, 5, 2, 1, 3, 1],
         };
         match self.rng.weighted(&w) {
             0 => Ty::Num,
             1 => Ty::Str,
             2 => Ty::Bool,
             3 => Ty::Null,
+            5 => Ty::Cmd,
             _ => {
                 if depth >= 2 {
                     Ty::arr(if self.rng.chance(1, 2) { Ty::Num } else { Ty::Str })
                 } else {
-                    let inner = match self.rng.weighted(&[4, 4, 1, 3, 1]) {
+                    let inner = match self.rng.weighted(&[4, 4, 1, 3, 1, 1]) {
                         0 => Ty::Num,
                         1 => Ty::Str,
                         2 => Ty::Bool,
                         3 => self.random_ty(depth + 1),
-                        _ => Ty::Any,
+                        4 => Ty::Any,
+                        _ => Ty::Cmd,
                     };
                     let inner = if matches!(inner, Ty::Null) { Ty::Num } else { inner };
                     Ty::arr(inner)
@@ -367,6 +372,7 @@ impl Gen<'_> {
             Ty::Bool => self.bool_expr(depth),
             Ty::Null => Expr::Null,
             Ty::Arr(inner) => self.arr_expr(inner, depth),
+            Ty::Cmd => self.cmd_expr(depth),
             Ty::Any => {
                 let t = match self.rng.weighted(&[3, 3, 1, 1]) {
                     0 => Ty::Num,
@@ -377,6 +383,27 @@ impl Gen<'_> {
                 self.expr(&t, depth)
             }
         }
+    }
+
+    fn cmd_expr(&mut self, depth: usize) -> Expr {
+        let vars = self.vars_of(&Ty::Cmd);
+        if !vars.is_empty() && self.rng.chance(2, 5) {
+            return var(&self.rng.pick(&vars).name.clone());
+        }
+        if depth < 3
+            && self.rng.chance(1, 4)
+            && let Some(c) = self.try_call(&Ty::Cmd, depth)
+        {
+            return c;
+        }
+        if let Some(e) = self.elem_read(&Ty::Cmd)
+            && self.rng.chance(1, 4)
+        {
+            return e;
+        }
+        // the program name is a string computed at run time as often as a literal
+        let name = if self.rng.chance(1, 2) { self.str_expr(depth + 2) } else { plain(&format!("/bin/p{}", self.site())) };
+        call("command", vec![name])
     }
 
     fn call_expr(&mut self, f: &FnInfo, depth: usize) -> Expr {
@@ -798,7 +825,43 @@ impl Gen<'_> {
         true
     }
 
+    /// `c.arg(v)` / `c.cwd(s)` / `c.env(k, v)` on a command variable or an element that is one.
+    fn cmd_mutation(&mut self, out: &mut Vec<Stmt>) -> bool {
+        let mut targets: Vec<Expr> = self.vars_of(&Ty::Cmd).into_iter().map(|v| var(&v.name)).collect();
+        for v in self.all_vars() {
+            if v.fixed && v.ty == Ty::arr(Ty::Cmd) && v.lens.first().copied().unwrap_or(0) > 0 {
+                let k = self.rng.usize(v.lens[0]);
+                targets.push(Expr::Index(Box::new(var(&v.name)), Box::new(num(k as i64))));
+            }
+        }
+        if targets.is_empty() {
+            return false;
+        }
+        let t = self.rng.pick(&targets).clone();
+        let stmt = match self.rng.weighted(&[6, 1, 2, 1]) {
+            0 => {
+                let ty = match self.rng.below(4) {
+                    0 => Ty::Num,
+                    1 | 2 => Ty::Str,
+                    _ => Ty::Bool,
+                };
+                method(t.clone(), "arg", vec![self.expr(&ty, 1)])
+            }
+            1 => method(t.clone(), "cwd", vec![self.str_expr(2)]),
+            2 => method(t.clone(), "env", vec![plain(&format!("K{}", self.site())), self.str_expr(2)]),
+            _ => method(t.clone(), "stdout_capture", vec![]),
+        };
+        out.push(Stmt::Expr(stmt));
+        if self.rng.chance(1, 2) {
+            out.push(shout(t));
+        }
+        true
+    }
+
     fn array_mutation(&mut self, out: &mut Vec<Stmt>) -> bool {
+        if self.rng.chance(1, 3) && self.cmd_mutation(out) {
+            return true;
+        }
         let arrs: Vec<VarInfo> =
             self.all_vars().into_iter().filter(|v| matches!(v.ty, Ty::Arr(_))).collect();
         if arrs.is_empty() {
@@ -1141,11 +1204,13 @@ impl Gen<'_> {
         self.budget -= 1;
         let rank = self.next_rank;
         self.next_rank += 1;
-        let ret = match self.rng.weighted(&[5, 5, 2, 3, 2]) {
+        let cmd_w = if matches!(self.profile, Profile::Mem | Profile::Array) { 2 } else { 1 };
+        let ret = match self.rng.weighted(&[5, 5, 2, 3, 2, cmd_w]) {
             0 => Ty::Num,
             1 => Ty::Str,
             2 => Ty::Bool,
             3 => Ty::Null,
+            5 => Ty::Cmd,
             _ => Ty::arr(if self.rng.chance(1, 2) { Ty::Num } else { Ty::Str }),
         };
         let (ret, mut ptys): (Ty, Vec<Ty>) = match &partner {
@@ -1154,10 +1219,11 @@ impl Gen<'_> {
                 let n = self.rng.range(0, 3) as usize;
                 let mut ptys = Vec::new();
                 for _ in 0..n {
-                    let t = match self.rng.weighted(&[5, 5, 1, 3]) {
+                    let t = match self.rng.weighted(&[5, 5, 1, 3, 1]) {
                         0 => Ty::Num,
                         1 => Ty::Str,
                         2 => Ty::Bool,
+                        4 => Ty::Cmd,
                         _ => Ty::arr(if self.rng.chance(1, 2) { Ty::Num } else { Ty::Str }),
                     };
                     ptys.push(t);
